@@ -753,6 +753,21 @@ BIN = {"+": operator.add, "-": operator.sub, "*": operator.mul, "/": operator.tr
 CMP = {"==": operator.eq, "!=": operator.ne, "<": operator.lt, "<=": operator.le, ">": operator.gt, ">=": operator.ge}
 
 
+class OperandMutated(Exception):
+    def __init__(self, path, which, before, after):
+        Exception.__init__(self, "operand %s of the operation at '%s' was modified by it" % (which, path))
+        self.path, self.which, self.before, self.after = path, which, before, after
+
+
+def _snap(U, x):
+    """observable content of an operand (to check that operators do not modify their operands)"""
+    if isinstance(x, U.UnitValue):
+        return ("V", float(x.value).hex(), si.sys_of(x.units.sys), si.dim_of(x.units.dim))
+    if isinstance(x, U.UnitArray):
+        return ("A", x.value.tobytes().hex(), si.sys_of(x.units.sys), si.dim_of(x.units.dim))
+    return ("N", repr(x))
+
+
 def impl_eval(U, node, path=""):
     t = node["t"]
     if t == "N":
@@ -767,20 +782,33 @@ def impl_eval(U, node, path=""):
         raise ImplRaised(path, e)
     if t in ("neg", "abs", "pow"):
         x = impl_eval(U, node["x"], path + "x")
+        sx = _snap(U, x)
         try:
             if t == "neg":
-                return -x
-            if t == "abs":
-                return abs(x)
-            return x ** node["e"]
+                res = -x
+            elif t == "abs":
+                res = abs(x)
+            else:
+                res = x ** node["e"]
         except Exception as e:
             raise ImplRaised(path, e)
+        if _snap(U, x) != sx:
+            raise OperandMutated(path, "x", sx, _snap(U, x))
+        return res
     l = impl_eval(U, node["l"], path + "l")
     r = impl_eval(U, node["r"], path + "r")
+    sl, sr = _snap(U, l), _snap(U, r)
     try:
-        return (BIN if t == "bin" else CMP)[node["op"]](l, r)
+        res = (BIN if t == "bin" else CMP)[node["op"]](l, r)
     except Exception as e:
         raise ImplRaised(path, e)
+    # arithmetic on quantities is arithmetic on values: an operator must not change its operands (a user who
+    # re-uses b after a + b must still have b)
+    if _snap(U, l) != sl:
+        raise OperandMutated(path, "left", sl, _snap(U, l))
+    if _snap(U, r) != sr:
+        raise OperandMutated(path, "right", sr, _snap(U, r))
+    return res
 
 
 def show(n):
@@ -832,6 +860,11 @@ def judge(U, tree):
     got = raised = None
     try:
         got = impl_eval(U, tree)
+        c("operand_immutability_checks")
+    except OperandMutated as e:
+        bad.append({"what": "an operator modified one of its operands", "path": e.path, "operand": e.which,
+                    "op": op_of(node_at(tree, e.path)), "before": list(e.before)[:2], "after": list(e.after)[:2], "tree": show(tree)})
+        return {"outcome": "bad", "counts": counts, "bad": bad, "ref": ref, "info": {}}
     except ImplRaised as e:
         raised = e
 
